@@ -31,7 +31,7 @@ pub fn tool_error(msg: &str) -> ! {
 }
 
 pub struct Out {
-    w: std::io::BufWriter<Box<dyn Write>>,
+    pub w: std::io::BufWriter<Box<dyn Write>>,
 }
 
 impl Out {
